@@ -34,7 +34,7 @@ Fixpoint cl2_2 (s : RS2) : Prop :=
   end.
 Fixpoint cl2_3 (s : RS3) : Prop :=
   match s with
-  | Sphere _ | Box3D _ _ => True
+  | Sphere _ | Box3D _ _ | Cylinder _ _ _ => True
   | Intersect3 _ s0 _ | Difference3 _ s0 _ => cl2_3 s0
   | Cut3 s _ _ | ScaleUniform3 s _ | Elongate3 s _ => cl2_3 s
   | Transform3 s m => cl2_3 s /\ rigid44 m
@@ -262,7 +262,7 @@ Proof.
       intros o W H; cbn [wf3 build3 cinf3 cl2_3] in *.
     + clear main2 main3. split; [eapply sphere_enc, H | split; intros _; [apply lb2_lbinf3|]; eapply sphere_lb2, H].
     + clear main2 main3. split; [eapply box3_enc, H | split; intros _; [eapply box3_lbinf, H | eapply box3_lb2, H]].
-    + clear main2 main3. apply inf_only3. eapply cylinder_lbinf; eassumption.
+    + clear main2 main3. split; [eapply cylinder_enc, H | split; intros _; [eapply cylinder_lbinf, H | eapply cylinder_lb2, H]].
     + clear main2 main3. destruct W as [H0 H1]. apply enc_only3. exact (cone_enc _ _ _ _ _ H0 H1 H).
     + ob H. pose proof (main2 s o1 W Hb) as I. clear main2 main3.
       apply enc_only3. eapply revolve_enc; [exact H | apply I].
